@@ -22,4 +22,5 @@ var (
 	ErrDelayPeriodNotPassed   = sdkerrors.Register(moduleName, 8, "packet-specified delay period has not been reached")
 	ErrInvalidProofSpecs      = sdkerrors.Register(moduleName, 9, "invalid proof specs")
 	ErrInvalidValidatorSet    = sdkerrors.Register(moduleName, 10, "invalid validator set")
+	ErrInvalidTrustLevel      = sdkerrors.Register(moduleName, 11, "invalid trust level")
 )
